@@ -555,13 +555,17 @@ def run_gen_pipeline(prop, family, cases, nshards=8, timeout=3000):
 
 
 def _run_gen_pipeline(prop, family, cases, nshards=8, timeout=3000):
+    # rustc needs roughly 20-25 MB per generated module: keep a shard at 120 modules or fewer
+    # (about 3 GB per rustc) and at most 12 rustc at a time when there are many shards
+    nshards = max(nshards, -(-len(cases) // 120))
+    jobs = None if nshards <= 16 else 12
     cpath = os.path.join(BUILD, "%s.cases.ndjson" % prop)
     apath = os.path.join(BUILD, "%s.api.ndjson" % prop)
     gdir = os.path.join(BUILD, "gen", prop)
     write_ndjson(cpath, cases)
     sh([VDRIVE_BIN, "gen", cpath, apath, family, gdir, str(nshards)], timeout=timeout)
     api = read_ndjson(apath)
-    ce, rt, st = gen_build_run(gdir, nshards, timeout=timeout)
+    ce, rt, st = gen_build_run(gdir, nshards, timeout=timeout, jobs=jobs)
     events = merge_events(api, ce, rt)
     return events, st
 
